@@ -461,6 +461,113 @@ unit_T(uint64_t idx)
 	return 0;
 }
 
+/* ---- mode W: the argument reader dt_io_strpdt and its catch words: WORD + filler of every length 1..40 (thorough 80).
+ * Only the word itself (any case) is the word; anything longer goes to the formats, and what no format reads is unknown.
+ * The expectation is the library's own answer for the text under the formats, so nothing beyond that is demanded. ---- */
+static const char *const w_words[] = {"now", "today", "date", "tomo", "tomorrow", "yday", "yest", "yesterday", "time",
+	"NOW", "TODAY", "DATE", "TOMO", "TOMORROW", "YDAY", "YEST", "YESTERDAY", "TIME", "Now", "toDay"};
+#define NWORDS	((int)(sizeof(w_words) / sizeof(*w_words)))
+static const char *const w_fill[] = {" xyz", "          ", "1234567890", ": 4th March 2012 ", " 2012-03-04T12:34:56", "-03-04", "x", "\t"};
+static const char *const w_fill_name[] = {"blanks and letters", "blanks", "digits", "a date in words", "an ISO date-time", "the tail of a date", "letters", "tabs"};
+#define NWFILL	((int)(sizeof(w_fill) / sizeof(*w_fill)))
+static const struct fset w_sets[] = {
+	{"(none)", 0, {NULL}},
+	{"%Y-%m-%d", 1, {"%Y-%m-%d"}},
+	{"%d %b %Y,%H:%M:%S", 2, {"%d %b %Y", "%H:%M:%S"}},
+};
+#define NWSETS	((int)(sizeof(w_sets) / sizeof(*w_sets)))
+static int w_only = -1;
+static int
+unit_W(uint64_t idx)
+{
+	EX_CTR(c_states, "states");
+	EX_CTR(c_eval, "evaluations");
+	EX_CTR(c_cases, "catch_word_cases");
+	EX_CTR(c_nontriv, "nontrivial");
+	const char *w = w_words[idx];
+	size_t wl = strlen(w);
+	int maxn = ex.thorough ? 80 : 40, rc, sub = 0;
+	char text[128], key[256], cas[64], te[300];
+
+	++*c_states;
+	for (int fi = 0; fi < NWFILL; fi++) {
+		size_t pl = strlen(w_fill[fi]);
+		for (int n = 1; n <= maxn; n++) {
+			int special = 0;
+			memcpy(text, w, wl);
+			for (int i = 0; i < n; i++) {
+				text[wl + (size_t)i] = w_fill[fi][(size_t)i % pl];
+			}
+			text[wl + (size_t)n] = '\0';
+			for (int j = 0; j < 9; j++) {
+				special |= !strcasecmp(text, w_words[j]);
+			}
+			for (int k = 0; k < NWSETS; k++, sub++) {
+				char *plain[3], *placed[3];
+				const char *pi;
+				struct dt_dt_s v, e = {DT_UNK};
+				if (special || (w_only >= 0 && w_only != sub) || xb_skip()) {
+					continue;
+				}
+				++*c_cases;
+				for (size_t i = 0; i < w_sets[k].n; i++) {
+					plain[i] = (char*)w_sets[k].f[i];
+				}
+				place_formats(plain, w_sets[k].n, placed);
+				pi = xa_place(&xa_inp, text, wl + (size_t)n + 1);
+				xr.n = 0;
+				xr.total = 0;
+				XG_BEGIN(rc) {
+					v = dt_io_strpdt(pi, placed, w_sets[k].n, NULL);
+					/* what the formats make of it */
+					if (w_sets[k].n == 0) {
+						e = dt_strpdt(pi, NULL, NULL);
+					}
+					for (size_t i = 0; i < w_sets[k].n && dt_unk_p(e); i++) {
+						e = dt_strpdt(pi, placed[i], NULL);
+					}
+				} XG_END;
+				++*c_eval;
+				snprintf(cas, sizeof(cas), "W %d %d", (int)idx, sub);
+				xe_esc(text, wl + (size_t)n, te, sizeof(te));
+				if (rc) {
+					char sw[128];
+					snprintf(key, sizeof(key), "dt_io_strpdt: %s, catch word followed by text", sig_where(sw, sizeof(sw)));
+					report(key, (double)(wl + (size_t)n), cas, NULL, "dt_io_strpdt(\"%s\", formats %s): %s", te, w_sets[k].name, sw);
+					if (xg_must_restart()) {
+						return 1;
+					}
+					continue;
+				}
+				for (int i = 0; i < xr.n; i++) {
+					snprintf(key, sizeof(key), "dt_io_strpdt: %s in %s, catch word followed by text", xr.r[i].kind, xr.r[i].site);
+					report(key, (double)(wl + (size_t)n), cas, NULL, "dt_io_strpdt(\"%s\", formats %s) with the text in an exact-size block: %s (in %s)", te, w_sets[k].name,
+					       xr.r[i].kind, xr.r[i].site);
+				}
+				ex_outcome(ex_hash_mix((uint64_t)dt_unk_p(v), (uint64_t)(k * 2 + dt_unk_p(e))));
+				if (!dt_unk_p(v) && dt_unk_p(e)) {
+					char cmd[400] = "";
+					++*c_nontriv;
+					if (xe_printable(text, wl + (size_t)n)) {
+						size_t c = (size_t)snprintf(cmd, sizeof(cmd), "dconv");
+						for (size_t i = 0; i < w_sets[k].n; i++) {
+							c += (size_t)snprintf(cmd + c, sizeof(cmd) - c, " -i '%s'", w_sets[k].f[i]);
+						}
+						snprintf(cmd + c, sizeof(cmd) - c, " '%s'; echo rc=$?", text);
+					}
+					snprintf(key, sizeof(key), "dt_io_strpdt: text that starts with a catch word (now, today, ...) and goes on is read as the word%s",
+						 w_sets[k].n ? ", input formats given" : "");
+					report(key, (double)(wl + (size_t)n), cas, *cmd ? cmd : NULL, "dt_io_strpdt(\"%s\", formats %s) is a value although the text is %zu bytes longer than '%s' (%s) and "
+					       "no format reads it", te, w_sets[k].name, (size_t)n, w, w_fill_name[fi]);
+				} else if (replay_verbose) {
+					printf("  dt_io_strpdt(\"%s\", formats %s): %s (formats alone: %s)\n", te, w_sets[k].name, dt_unk_p(v) ? "unknown" : "a value", dt_unk_p(e) ? "unknown" : "a value");
+				}
+			}
+		}
+	}
+	return 0;
+}
+
 struct sres {
 	unsigned char raw[16];
 };
@@ -834,6 +941,7 @@ run_unit(char mode, uint64_t idx)
 	case 'G': return unit_G(idx);
 	case 'L': return unit_L(idx);
 	case 'T': return unit_T(idx);
+	case 'W': return unit_W(idx);
 	case 'U': return unit_U(idx);
 	case 'R': return unit_R(idx);
 	case 'M': return unit_M(idx);
@@ -917,6 +1025,9 @@ main(int argc, char *argv[])
 			l2 = xe_unhex(h2, b2, sizeof(b2) - 1);
 			b2[l2] = '\0';
 			unit_L(str2idx(b2, l2, SI));
+		} else if (ex.cas[0] == 'W' && sscanf(ex.cas, "W %d %d", &k, &w_only) == 2 && k >= 0 && k < NWORDS && w_only >= 0) {
+			ex.thorough = 1;
+			unit_W((uint64_t)k);
 		} else if (ex.cas[0] == 'T' && sscanf(ex.cas, "T %d", &k) == 1 && k >= 0 && k / 64 < TF_TOTAL) {
 			t_only = k % 64;
 			unit_T((uint64_t)(k / 64));
@@ -973,20 +1084,20 @@ main(int argc, char *argv[])
 		"format sets (none/standard needles, one per needle class, a 3-format set): dt_io_find_strpdt2 and dt_io_strpdt. U: string over {\\ a n t v x e z A %% 0x01 0x7f}: "
 		"dt_io_unescape in place. M: duration lists of every length 0..%d over {1d 2b 1w 1mo 1y 3h 4m 5s 6rs} and the co-class forms {/1h /15m /30s /1d} (one unit throughout, "
 		"units in rotation, co-class forms in rotation, both in rotation; all '+' or signs alternating) as one concatenated string and as one string per duration into one list: no memory "
-		"report and the list equals the durations read one at a time (inside one string a '/' holds for the rest of the string, as the source says). T: two formats, one of digits only {%%Y%%m%%d %%H%%M%%S %%s %%Y%%j} and one with a separator {%%d/%%m/%%Y %%Y-%%m-%%d %%H:%%M:%%S, %%d %%b %%Y}, both orders, over 10 x 4 lines where the separator match is preceded by text the digits-only format tries. R: string over {1 0 - + = < / d m o s SPC}: the tools' loop around dt_io_strpdtdur. Every string in a block of exactly its size. "
+		"report and the list equals the durations read one at a time (inside one string a '/' holds for the rest of the string, as the source says). T: two formats, one of digits only {%%Y%%m%%d %%H%%M%%S %%s %%Y%%j} and one with a separator {%%d/%%m/%%Y %%Y-%%m-%%d %%H:%%M:%%S, %%d %%b %%Y}, both orders, over 10 x 4 lines where the separator match is preceded by text the digits-only format tries. W: the argument reader dt_io_strpdt with every catch word (now today date tomo tomorrow yday yest yesterday time, three spellings of case) followed by 1..40 (thorough 80) bytes of 8 fillers (blanks, letters, digits, dates, tabs) under no format and two format sets: what is longer than the word and is read by no format is unknown. R: string over {1 0 - + = < / d m o s SPC}: the tools' loop around dt_io_strpdtdur. Every string in a block of exactly its size. "
 		"Oracles: no ASan/bounds report, no fatal signal, returns within 1 s, match pointers inside the line and in order (0 <= start <= end <= length on every return), answers independent of the bytes behind the terminator (two fills), "
 		"unescape terminates inside its block, the duration loop ends within 64 rounds. non-trivial = case with a report, a changed string (U) or more than one duration (R).",
 		(int)NNAMED, NFIXED, NFSETS, XD_MAXN(ex.thorough));
 	ex_meta("bound", "formats (G): length <= %d (%llu strings); lines (L): length <= %d (%llu); unescape strings: length <= %d; duration strings (R): length <= %d",
 		lenG, (unsigned long long)nstrings(lenG), lenL, (unsigned long long)nstrings(lenL), lenU, lenR);
 	{
-		static const struct { char mode; int batch; } plan[] = {{'M', 1}, {'T', 4}, {'G', 512}, {'L', 512}, {'U', 8192}, {'R', 8192}};
+		static const struct { char mode; int batch; } plan[] = {{'M', 1}, {'T', 4}, {'W', 1}, {'G', 512}, {'L', 512}, {'U', 8192}, {'R', 8192}};
 		for (size_t k = 0; k < sizeof(plan) / sizeof(*plan) && !ex_expired(); k++) {
 			uint64_t total;
 			g_mode = plan[k].mode;
 			g_maxlen = g_mode == 'G' ? lenG : g_mode == 'L' ? lenL : g_mode == 'U' ? lenU : lenR;
 			g_nenum = nstrings(g_maxlen);
-			total = g_mode == 'T' ? (uint64_t)TF_TOTAL : g_mode == 'M' ? (uint64_t)XD_MAXN(ex.thorough) + 1U : g_nenum + (g_mode == 'G' ? NNAMED + xh_count(ex.thorough ? 3 : 2) : 0);
+			total = g_mode == 'W' ? (uint64_t)NWORDS : g_mode == 'T' ? (uint64_t)TF_TOTAL : g_mode == 'M' ? (uint64_t)XD_MAXN(ex.thorough) + 1U : g_nenum + (g_mode == 'G' ? NNAMED + xh_count(ex.thorough ? 3 : 2) : 0);
 			for (uint64_t lo = 0; lo < total && !ex.expired; lo += (uint64_t)plan[k].batch, slice++) {
 				uint64_t hi = lo + (uint64_t)plan[k].batch < total ? lo + (uint64_t)plan[k].batch : total;
 				if (!ex_mine(slice)) {
